@@ -633,15 +633,21 @@ func (w *bmWorker) conf(c *bmCase) *model.Configuration {
 	return plainConf()
 }
 
-func (w *bmWorker) base(np int) string {
-	if p, ok := w.bases[np]; ok {
+// base returns an np-page document; fanout 0: flat page tree, k: nested page tree with k pages per intermediate node.
+func (w *bmWorker) base(np, fanout int) string {
+	key := np*10 + fanout
+	if p, ok := w.bases[key]; ok {
 		return p
 	}
-	p := filepath.Join(w.dir, fmt.Sprintf("base%d.pdf", np))
-	if err := os.WriteFile(p, rawpdf.Simple(np, "p"), 0644); err != nil {
+	p := filepath.Join(w.dir, fmt.Sprintf("base%d-%d.pdf", np, fanout))
+	ps := make([]rawpdf.PageSpec, np)
+	for i := range ps {
+		ps[i] = rawpdf.PageSpec{Marker: fmt.Sprintf("p-%d", i+1), Rotate: -1}
+	}
+	if err := os.WriteFile(p, rawpdf.MarkerDoc(ps, rawpdf.MarkerOpts{Fanout: fanout}).Bytes(), 0644); err != nil {
 		h.Die("write base: %v", err)
 	}
-	w.bases[np] = p
+	w.bases[key] = p
 	return p
 }
 
@@ -726,7 +732,7 @@ func (w *bmWorker) roundTrip(tag string, c *bmCase, src, target string, exp []bm
 func (w *bmWorker) run(c *bmCase, decoy string, fail func(key, what string, got any)) (nontrivial bool) {
 	c.Tree = normForest(c.Tree)
 	c.Exp = normForest(c.Exp)
-	base := w.base(c.NP)
+	base := w.base(c.NP, 2*(w.n%2)) // every other case imports into a document with a nested page tree
 	js := filepath.Join(w.dir, "in.json")
 	writeBMJSON(js, c.Tree)
 	d1 := filepath.Join(w.dir, "d1.pdf")
@@ -805,7 +811,7 @@ func bmReplay(in, out string, workers int) {
 					dj := filepath.Join(dir, "decoy.json")
 					writeBMJSON(dj, []bmNode{{Title: []int{111, 108, 100}, Page: 1, Bold: true, Color: []int{0, 1000, 0},
 						Kids: []bmNode{{Title: []int{100, 117, 112}, Page: c.NP}}}, {Title: []int{100, 117, 112}, Page: 1}})
-					if err := api.ImportBookmarksFile(w.base(c.NP), dj, dec, true, nil); err != nil {
+					if err := api.ImportBookmarksFile(w.base(c.NP, 0), dj, dec, true, nil); err != nil {
 						h.Die("decoy: %v", err)
 					}
 					decoys[c.NP] = dec
